@@ -253,28 +253,72 @@ waiting:
 			return tr, res
 		}
 	}
-	// final state, after the background work has drained (steering only)
-	waitIdle(st, 5*time.Second)
 	if txr != nil {
 		txr.Bind(1)
 		defer txrec.Unbind()
 	}
 	c := st.Sess(1)
-	c.Begin(false)
-	for k := 1; k <= s.NKeys; k++ {
-		if c.Get(k) == -2 {
-			res.Corrupt++
+	if s.Profile == "stress" {
+		// Close with flushes pending: a burst of rotating commits right before it, no waiting
+		for i := 0; i < 2+s.Cfg.ImmutableBuffer; i++ {
+			c.Begin(true)
+			c.Put(1+i%s.NKeys, int(vid.Add(1)))
+			countCommit(&res, c.Commit())
+		}
+	} else {
+		// final state, after the background work has drained
+		waitIdle(st, 5*time.Second)
+		c.Begin(false)
+		for k := 1; k <= s.NKeys; k++ {
+			if c.Get(k) == -2 {
+				res.Corrupt++
+			}
+		}
+		c.Discard()
+	}
+	timed := func(what string, f func()) bool {
+		fin := make(chan struct{})
+		go func() { f(); close(fin) }()
+		select {
+		case <-fin:
+			return true
+		case <-time.After(watchdog):
+			buf := make([]byte, 1<<20)
+			n := runtime.Stack(buf, true)
+			res.Watchdog = fmt.Sprintf("%s did not return within %v\n%s", what, watchdog, buf[:n])
+			return false
 		}
 	}
-	c.Discard()
-	closed := make(chan struct{})
-	go func() { st.Close(); close(closed) }()
-	select {
-	case <-closed:
-	case <-time.After(watchdog):
-		buf := make([]byte, 1<<20)
-		n := runtime.Stack(buf, true)
-		res.Watchdog = fmt.Sprintf("Close did not return within %v\n%s", watchdog, buf[:n])
+	if !timed("Close", st.Close) {
+		res.Events = tr.Len()
+		return tr, res
+	}
+	if s.Reopen {
+		// after Close returned the flusher has stopped: no wal file is left, and the directory can be
+		// reopened at once with the complete committed state
+		_, wal, _, _ := countFiles(dir)
+		res.WalLeft = wal
+		var st2 *dbx.Store
+		ok := timed("Open after Close", func() {
+			var err error
+			st2, err = dbx.Open(dir, s.Cfg.Config(), tr, km, false)
+			if err != nil {
+				res.Watchdog = "reopen: " + err.Error()
+			}
+		})
+		if ok && st2 != nil {
+			c2 := st2.Sess(1)
+			timed("reads after reopen", func() {
+				c2.Begin(false)
+				for k := 1; k <= s.NKeys; k++ {
+					if c2.Get(k) == -2 {
+						res.Corrupt++
+					}
+				}
+				c2.Discard()
+			})
+			timed("Close after reopen", st2.Close)
+		}
 	}
 	db, _, _, _ := countFiles(dir)
 	res.DBFiles = db
